@@ -108,3 +108,20 @@ def recursion_controls():
     if missing:
         raise Inconclusive("positive controls of the recursion analysis not reported: %s" % missing)
     return found
+
+
+def rendered_controls():
+    import rendered
+    f = control_facts()
+    root = f.impl_method("std::fmt::Display", "Doc", "fmt")
+    if not root:
+        raise Inconclusive("positive control of the rendered-text analysis not found (Display for Doc)")
+    out, stats = rendered.analyse(f, [root], ("Doc",))
+    found = {
+        "rendered-text-rewritten": any(name == "replace" and "closure" in d for d, name, span, full in out),
+        "silent:escaping-raw-data": not any("closure" not in d for d, name, span, full in out),
+    }
+    missing = [k for k, v in found.items() if not v]
+    if missing:
+        raise Inconclusive("controls of the rendered-text analysis failed: %s (%s)" % (missing, out))
+    return found
